@@ -1,9 +1,9 @@
 import Zc.Model.SurviveHandlers
 import Zc.Proofs.BrowserCb
 /-! `Browser.complete` (C04, used by the composite) is the code's `async_update_records_complete` exactly when the handlers return
-(`completeE_eq_complete`); when a handler raises for a pending `Added` event the exception leaves the method, the event stays
-pending — nothing but the skipped `clear()` ever removes or overwrites a pending `Added` — and every later call raises again
-(`raising_handler_wedges`): the browser is wedged for good.  (C15, finding F-U2.) -/
+(`completeE_eq_complete`).  Before the D24b repair (aa04e95), when a handler raised for a pending `Added` event the exception left the
+method, the event stayed pending — nothing but the skipped `clear()` ever removes or overwrites a pending `Added` — and every later
+call raised again (`raising_handler_wedged_before_fix`); since the repair it raises once (`raising_handler_raises_once`).  (C15, F-U2.) -/
 namespace Zc.Survive.Handlers
 open Zc
 
@@ -18,10 +18,15 @@ def HandlersOK (h : Handler) : Prop := ∀ cb, h cb = .ok ()
 
 /-- under `HandlersOK` the code's `async_update_records_complete` is C04's `Browser.complete`: the callbacks the composite emits as
 `COut.callback` are the handler calls, all of which returned -/
-theorem completeE_eq_complete {h : Handler} (hok : HandlersOK h) (b : Browser) : completeE h b = .ok (Browser.complete b) := by
+theorem completeE_eq_complete {h : Handler} (hok : HandlersOK h) (b : Browser) :
+    completeE h b = ((Browser.complete b).1, .ok (Browser.complete b).2) := by
   unfold completeE Browser.complete
   rw [fireAll_ok hok]
   rfl
+
+/-- **since the D24b repair a raising handler cannot leave anything behind**: whatever the handlers do, the browser's pending dict is
+empty after `async_update_records_complete` — the event that made a handler raise is not fired again -/
+theorem completeE_clears (h : Handler) (b : Browser) : (completeE h b).1.pending = [] := rfl
 
 theorem fireAll_raises {h : Handler} : ∀ (p : List ((String × String) × Change)) (kv : (String × String) × Change), kv ∈ p →
     (∃ e, h (cbOf kv) = .error e) → ∃ e, fireAll h p = .error e := by
@@ -127,24 +132,36 @@ theorem updateRecords_keeps {key : String × String} (c : Cache) (now : Ms) {b :
   unfold Browser.updateRecords
   exact foldl_keeps (P := PendingAdded key) (fun b u hb => updateOne_keeps lower possible c now hb u) us b h
 
-/-- **a raising handler wedges its browser** (what the code does when `HandlersOK` fails): if the handlers raise for the event
-`Added(t, n)` and that event is pending, then `async_update_records_complete` raises — and so does every later one, whatever record
-updates (`async_update_records`) arrive in between, from whatever cache, at whatever time: the event can never leave
-`_pending_handlers`, and it is fired first-come on every call. -/
-theorem raising_handler_wedges {h : Handler} {t n : String} (hraise : ∃ e, h ⟨.added, t, n⟩ = .error e) {b : Browser}
+/-- **before the D24b repair a raising handler wedged its browser**: if the handlers raise for the event `Added(t, n)` and that event
+is pending, the old `async_update_records_complete` raised and left the browser as it was — and so did every later call, whatever record
+updates (`async_update_records`) arrived in between, from whatever cache, at whatever time: the event could never leave
+`_pending_handlers`, and it was fired first-come on every call. -/
+theorem raising_handler_wedged_before_fix {h : Handler} {t n : String} (hraise : ∃ e, h ⟨.added, t, n⟩ = .error e) {b : Browser}
     (hp : PendingAdded (n, t) b) :
-    (∃ e, completeE h b = .error e) ∧
+    ((completeBeforeD24b h b).1 = b ∧ ∃ e, (completeBeforeD24b h b).2 = .error e) ∧
     ∀ (rounds : List (Cache × Ms × List (Rec × Option Rec))),
-      ∃ e, completeE h (rounds.foldl (fun b r => Browser.updateRecords lower possible r.1 r.2.1 b r.2.2) b) = .error e := by
-  have key : ∀ b' : Browser, PendingAdded (n, t) b' → ∃ e, completeE h b' = .error e := by
+      ∃ e, (completeBeforeD24b h (rounds.foldl (fun b r => Browser.updateRecords lower possible r.1 r.2.1 b r.2.2) b)).2 = .error e := by
+  have key : ∀ b' : Browser, PendingAdded (n, t) b' → (completeBeforeD24b h b').1 = b' ∧ ∃ e, (completeBeforeD24b h b').2 = .error e := by
     intro b' hb'
     have hmem := pendingGet_mem' b'.pending (n, t) .added hb'
     obtain ⟨e, he⟩ := fireAll_raises b'.pending ((n, t), .added) hmem hraise
-    exact ⟨e, by unfold completeE; rw [he]⟩
+    unfold completeBeforeD24b
+    rw [he]
+    exact ⟨rfl, e, rfl⟩
   refine ⟨key b hp, ?_⟩
   intro rounds
-  apply key
-  exact foldl_keeps (P := PendingAdded (n, t)) (fun b r hb => updateRecords_keeps lower possible r.1 r.2.1 hb r.2.2) rounds b hp
+  exact (key _ (foldl_keeps (P := PendingAdded (n, t)) (fun b r hb => updateRecords_keeps lower possible r.1 r.2.1 hb r.2.2) rounds b hp)).2
+
+/-- … and with the repair the same handler raises **once**: the call that fires the event raises, the event is gone afterwards -/
+theorem raising_handler_raises_once {h : Handler} {t n : String} (hraise : ∃ e, h ⟨.added, t, n⟩ = .error e) {b : Browser}
+    (hp : PendingAdded (n, t) b) :
+    (∃ e, (completeE h b).2 = .error e) ∧ ¬ PendingAdded (n, t) (completeE h b).1 := by
+  have hmem := pendingGet_mem' b.pending (n, t) .added hp
+  obtain ⟨e, he⟩ := fireAll_raises b.pending ((n, t), .added) hmem hraise
+  refine ⟨⟨e, he⟩, ?_⟩
+  unfold PendingAdded
+  rw [completeE_clears]
+  simp [pendingGet]
 
 end
 
